@@ -52,6 +52,28 @@ def method_as_value_sites(program: Program):
     return out
 
 
+def _owning_method(program: Program, f) -> str:
+    """qualified name of f, or -- for a module-level function called from exactly one function -- of that caller
+    (followed upwards while it stays unique)"""
+    cur = f
+    for _ in range(6):
+        if cur.cls is not None:
+            break
+        callers = []
+        for g in program.all_functions():
+            if g is cur:
+                continue
+            for n in ast.walk(g.node):
+                if isinstance(n, ast.Call) and isinstance(n.func, ast.Name) and n.func.id == cur.name:
+                    r = program.resolve_global(g.module, n.func.id)
+                    if r and r[0] == "func" and r[1] is cur and g not in callers:
+                        callers.append(g)
+        if len(callers) != 1:
+            break
+        cur = callers[0]
+    return cur.qualname
+
+
 def check(program: Program, run: Run) -> None:
     run.explanation = (
         "The namespace decision is tabulated exhaustively for the three copies (QueryBuilder, PostgreSQL, SQLite get_sql) over "
@@ -183,8 +205,18 @@ def check(program: Program, run: Run) -> None:
     run.analysed["method_as_value_sites"] = len(ms)
     for f, n, kind in ms:
         src = ast.unparse(n)
+        # the finding is named by the method the test belongs to (a module-level helper with one calling method is part
+        # of that method) and by the attribute path with a local root written `*`, so that moving the test into a
+        # helper or renaming a loop variable does not make it a different finding
+        owner = _owning_method(program, f)
+        root = n
+        while isinstance(root, ast.Attribute):
+            root = root.value
+        path = src
+        if isinstance(root, ast.Name) and not (f.params and root.id == f.params[0] and f.cls is not None):
+            path = "*" + src[len(root.id):]
         run.ob("C11/R4 bound method not used as a truth value / comparison operand", f"{f.qualname}:{src}", False, detail=kind, where=f.loc(n))
-        run.finding(f"C11/method-as-bool:{f.qualname}:{src}", f"{f.qualname} uses `{src}` as a {kind}, but `{n.attr}` only ever names a method: a bound method is always truthy and never equals data (a data attribute such as `_{n.attr.rstrip('_')}` was probably meant)",
+        run.finding(f"C11/method-as-bool:{owner}:{path}", f"{f.qualname} uses `{src}` as a {kind}, but `{n.attr}` only ever names a method: a bound method is always truthy and never equals data (a data attribute such as `_{n.attr.rstrip('_')}` was probably meant)",
                     where=f.loc(n), rule="R4", excerpt=f.module.excerpt(n.lineno, 1))
     run.ob("C11/R4 lint evaluated over all functions", "package", True, detail=f"{len(program.all_functions())} functions scanned", nontrivial=False)
 
